@@ -1,5 +1,6 @@
 import Model.NotifierConc
 import Lemmas.MutexLin
+import Lemmas.RWMutexLin
 import Lemmas.NotifierDelivery
 /-! C17, concurrent use: the micro-steps of every bracket compute the sequential reference `rrun`; every schedule of the
     interleaved machine projects to a schedule of the bracket machine; the goroutine-local callback lists are those of
@@ -459,5 +460,37 @@ def raceSchedule : List Nat := [0, 0, 0, 1, 1, 1, 1, 1, 0, 0, 0]
 /-- what one can see of the registry: is t5 registered for "a", for "b", has it a name-map entry -/
 def raceObs (s : NSt) : Option Int × Option Int × Bool :=
   (lookup s.prod [[97]] 5, lookup s.prod [[98]] 5, (assocGet s.names 5).isSome)
+
+/-! ### the readers-writer lock: read brackets do not write (premise of `RW.linearizable`) -/
+
+/-- the control states of the read brackets (`Enabled`, `BatchLevel`, the ancestor walk) -/
+def ROk : PC → Prop
+  | .start op => isRead op = true
+  | .collectLoop _ _ => True
+  | .ret _ => True
+  | _ => False
+
+theorem readOnly_sys : RW.ReadOnly sys isRead ROk where
+  start := fun _ h => h
+  step := fun k s hk => by
+    cases k with
+    | start op =>
+      cases op <;> simp only [ROk, isRead, Bool.false_eq_true] at hk
+      · exact ⟨rfl, trivial⟩
+      · exact ⟨rfl, trivial⟩
+      · show (micro (.start (.collect _)) s).2 = s ∧ ROk (micro (.start (.collect _)) s).1
+        simp only [micro]
+        split <;> exact ⟨rfl, trivial⟩
+    | collectLoop rest acc => cases rest <;> exact ⟨rfl, trivial⟩
+    | ret r => exact ⟨rfl, trivial⟩
+    | regLoop _ _ _ => exact hk.elim
+    | unregLoop _ _ => exact hk.elim
+
+/-- two goroutines notify "a" while a third registers: used by `C17.readers_overlap` -/
+def rwProgs : Nat → List ROp := fun t =>
+  if t = 0 then [.collect [97]] else if t = 1 then [.collect [97]] else if t = 2 then [.register 5 1 [[97]]] else []
+
+/-- the classification that wrongly puts `Register` / `Unregister` under the read half -/
+def isReadWrong : ROp → Bool := fun _ => true
 
 end NtC
